@@ -166,6 +166,10 @@ class Problem:
         t._data = d
         return t
 
+    def strip(self, t, kind):
+        """start kind 'one-block': the blocks that hold only zeros are not stored (a start tensor lacking symmetry-allowed blocks)"""
+        return t.remove_zero_blocks() if kind == "one-block" else t
+
     def to_vec(self, t):
         """dense coordinates in the sector + largest magnitude outside the sector."""
         full = t.to_numpy(legs=self.lmap).reshape(-1)
@@ -181,6 +185,19 @@ class Problem:
             return x
         if kind == "zero":
             return 0 * x
+        if kind == "tiny":         # a non-zero vector of very small norm (linearity in the start vector)
+            return x * (float(param) / np.linalg.norm(x))
+        if kind == "one-block":    # non-zero in `param` blocks only; the tensor is handed over WITHOUT its empty blocks (see strip())
+            sl = [s_.slcs[0] for s_ in self.tmpl.slices]
+            nb = min(int(param or 1), len(sl))
+            if g.uniform() < 0.6:      # the smallest blocks: the STORED size of the start tensor is then far below the sector dimension
+                pick = np.argsort([b_[1] - b_[0] for b_ in sl], kind="stable")[:nb]
+            else:
+                pick = g.choice(len(sl), size=nb, replace=False)
+            keep = np.zeros(self.dim, dtype=bool)
+            for i in pick:
+                keep |= (self.idx >= sl[i][0]) & (self.idx < sl[i][1])
+            return np.where(keep, x, 0)
         # spectral start vectors
         if self.rec["herm_op"]:
             lam, U = np.linalg.eigh(self.Fd)
@@ -303,8 +320,12 @@ def gen_start(rng):
         return ["zero", None]
     if r < 0.74:
         return ["eigvec", None]
-    if r < 0.86:
+    if r < 0.82:
         return ["invariant", rng.randint(2, 5)]
+    if r < 0.89:
+        return ["one-block", rng.choice([1, 1, 2])]
+    if r < 0.94:
+        return ["tiny", rng.choice([1e-9, 1e-11, 1e-13, 1e-30])]
     return ["near-invariant", rng.choice([1e-4, 1e-7, 1e-10, 1e-13])]
 
 
@@ -372,7 +393,7 @@ def eval_expmv(ctx, case, corr=None):
     import yastn
     P = Problem(case["prob"])
     x = P.start_vector(*case["start"])
-    v = P.to_tensor(x)
+    v = P.strip(P.to_tensor(x), case["start"][0])
     t = t_value(case)
     tol, ncv, herm, normalize = case["tol"], case["ncv"], case["hermitian"], case["normalize"]
     tag = "expmv"
@@ -393,7 +414,8 @@ def eval_expmv(ctx, case, corr=None):
         out, info = res if case["return_info"] else (res, None)
     except Livelock as e:
         ctx.count(f"{tag}:livelock")
-        ctx.fail("oracle", "c18:expmv:livelock-ncv-above-ncvmax" if max(1, ncv) > min(30, P.dim) else "c18:expmv:livelock",
+        ctx.fail("oracle", "c18:expmv:livelock-ncv-above-ncvmax" if max(1, ncv) > min(30, v.size) else      # ncv_max = min(30, STORED size of v)
+                 "c18:expmv:livelock-ncvmax-stored-size" if v.size < min(30, P.dim) else "c18:expmv:livelock",
                  f"expmv does not terminate: {e} (f called {W.calls} times in total); dim={P.dim} t={t} tol={tol} ncv={ncv} hermitian={herm}",
                  case=case, concrete=True)
         return
@@ -554,9 +576,35 @@ def gen_eigs_case(rng, quick):
     herm = rec["herm_op"] and rng.random() < 0.6
     st = gen_start(rng)
     r = rng.random()
+    if rng.random() < 0.12:     # a start tensor lacking symmetry-allowed blocks, Krylov space as large as the sector (exactness clause)
+        st, r = ["one-block", rng.choice([1, 1, 2])], 0.0
     ncv = ("dim+", rng.randint(0, 4)) if r < 0.4 else ("abs", rng.choice([1, 2, 3, 4, 6, 8, 10, 15, 20, 30]))
     return {"solver": "eigs", "prob": rec, "start": st, "k": rng.choice([1, 1, 2, 3, 4]), "which": rng.choice(WHICH),
             "ncv": list(ncv), "hermitian": herm}
+
+
+def reachable_dim(P, x):
+    """dimension of the Krylov space of (F, x) by dense Arnoldi with full re-orthogonalisation, and whether the breakdown is
+    unambiguous (all sub-diagonal norms before it > 1e-6 |F|, the one at it < 1e-11 |F| or the sector is exhausted)"""
+    nF = max(P.normF, 1e-300)
+    nx = np.linalg.norm(x)
+    if nx == 0:
+        return 0, False
+    Q = [np.asarray(x, dtype=complex) / nx]
+    clean = True
+    while len(Q) < P.dim:
+        w = P.Fd @ Q[-1]
+        for _ in range(2):
+            for q in Q:
+                w = w - q * np.vdot(q, w)
+        h = float(np.linalg.norm(w))
+        if h < 1e-11 * nF:
+            break
+        if h < 1e-6 * nF:
+            clean = False
+            break
+        Q.append(w / h)
+    return len(Q), clean
 
 
 def krylov_facts(P, X):
@@ -574,7 +622,7 @@ def eval_eigs(ctx, case, corr=None):
     import yastn
     P = Problem(case["prob"])
     x = P.start_vector(*case["start"])
-    v = P.to_tensor(x)
+    v = P.strip(P.to_tensor(x), case["start"][0])
     which, k, herm = case["which"], case["k"], case["hermitian"]
     ncv = P.dim + case["ncv"][1] if case["ncv"][0] == "dim+" else case["ncv"][1]
     tag = "eigs"
@@ -623,6 +671,19 @@ def eval_eigs(ctx, case, corr=None):
                      f"eigs built {m} Krylov vectors in a sector of dimension {P.dim} (ncv={ncv}; no breakdown detected, orthonormality defect {delta:.1e}) and "
                      f"returns value(s) {vals.tolist()} with |F y - theta y|/|y| = {worst:.2e} although the Krylov space spans the whole sector", case=case, concrete=True)
         return
+    # --- exactness when the REQUESTED Krylov dimension covers the sector reachable from the start vector -----------------------------
+    # (dense Arnoldi on the start vector gives the reachable dimension r; judged only when its breakdown is unambiguous)
+    r_dim, clean = reachable_dim(P, x)
+    if clean and ncv >= r_dim and m < r_dim:
+        worst = max(float(np.linalg.norm(P.Fd @ y - th * y) / max(np.linalg.norm(y), 1e-300)) for th, y in zip(vals, ys))
+        kap = 1.0 if herm_op else float(np.linalg.cond(np.linalg.eig(P.Fd)[1]))
+        ctx.count(f"{tag}:stopped-before-requested-dimension")
+        if worst > 1e-6 * nF * kap:
+            ctx.fail("oracle", "c18:eigs:exact-requested-dimension",
+                     f"eigs(ncv={ncv}) built only {m} Krylov vectors although the sector reachable from the start vector has dimension {r_dim} <= ncv "
+                     f"(stored size of the start tensor {v.size}, sector dimension {P.dim}) and returns value(s) {vals.tolist()} with "
+                     f"|F y - theta y|/|y| = {worst:.2e}: not exact although the requested Krylov space spans the reachable sector", case=case, concrete=True)
+            return
     # --- variational bounds for Hermitian maps (any ncv; slack proportional to the measured loss of orthogonality) -----------------
     if herm_op and delta <= 1e-3:
         lam = np.linalg.eigvalsh(P.Fd)
@@ -972,7 +1033,7 @@ def run(ctx):
     ]
     ctx.extra["yastn_path"] = yastn.__file__
     ctx.notes.append("defects of the pinned yastn found by this check and recorded in known_findings.json: expmv livelock for ncv > min(30, size) "
-                     "(c18:expmv:livelock-ncv-above-ncvmax), ZeroDivisionError/OverflowError when tau_opt underflows (c18:expmv:tau-opt-underflow), "
+                     "(c18:expmv:livelock-ncv-above-ncvmax; for a start tensor storing fewer elements than the sector has dimensions: c18:expmv:livelock-ncvmax-stored-size), ZeroDivisionError/OverflowError when tau_opt underflows (c18:expmv:tau-opt-underflow), "
                      "non-unit result of expmv(hermitian=True, normalize=True) for large real t (c18:expmv:normalize-not-unit:lanczos), garbage Ritz pairs "
                      "of eigs with ncv > dimension after an undetected breakdown (c18:eigs:krylov-beyond-dimension)")
     t0 = time.time()
